@@ -326,7 +326,7 @@ class Part:
 
 
 def write_replay(pid, seed, idx, v, theorem=None):
-    d = os.path.join(VERIF, 'evidence', 'replays')
+    d = os.path.join(EVIDENCE_DIR or os.path.join(VERIF, 'evidence'), 'replays')
     os.makedirs(d, exist_ok=True)
     path = os.path.join(d, '%s-%s-%d.json' % (pid, seed, idx))
     v = dict(v, property=pid, seed=seed)
